@@ -13,13 +13,20 @@ CFG = {
             "hdrpath",
             120,
             2000
+        ],
+        [
+            "hdrseq",
+            1500,
+            20000
         ]
     ],
-    "rule": "codecs: thrift header maps (0..300 entries, boundary lengths 65535/65536) through the real WriteHeaders/ReadHeaders and the arg2 KeyValIterator; HTTP requests/responses (methods, URLs up to 16384 bytes, status codes, multi-valued and non-canonical header keys, over-size buffers) through the real WriteRequest/ReadRequest/ResponseWriter/ReadResponse on in-memory arg streams; uvarints; each valid encoding also as hostile variants (every kind of truncation, boundary bytes, junk, random, varints >= 2^63), every call under recover() so a panic is an observation. hdrpath: real thrift and JSON client/server pairs, headers attached to the context vs. headers seen by the handler and response headers seen by the caller. All cases distinct by input.",
+    "spec_subs": {"hdrseq": ["theories/Proofs/HdrSlotP.vo"]},
+    "rule": "codecs: thrift header maps (0..300 entries, boundary lengths 65535/65536) through the real WriteHeaders/ReadHeaders and the arg2 KeyValIterator; HTTP requests/responses (methods, URLs up to 16384 bytes, status codes, multi-valued and non-canonical header keys, over-size buffers) through the real WriteRequest/ReadRequest/ResponseWriter/ReadResponse on in-memory arg streams; uvarints; each valid encoding also as hostile variants (every kind of truncation, boundary bytes, junk, random, varints >= 2^63), every call under recover() so a panic is an observation. hdrpath: real thrift and JSON client/server pairs, headers attached to the context vs. headers seen by the handler and response headers seen by the caller (one call per context). hdrseq: sequences of 2..4 (thorough: up to 8) thrift (generated client -> thrift client.Call) and JSON (Client.Call, CallPeer, CallSC) calls made with the SAME ContextWithHeaders, interleaved with WithHeaders (thrift/json/tchannel spelling, nil or empty map), Child() and back-to-parent; every handler answers ok / application error / (sub hdrseq_err) system error and sets response headers from {never set, nil, empty, 1 pair, several pairs, same keys as the previous response with other values, subset, superset, colliding small keys}; after every operation the context's Headers() and ResponseHeaders(), per call the result, whether the handler ran and the request headers it saw are compared with the model (sub hdrseq: proved equal to Spec/HdrPath.v, so a disagreement is a concrete failing input) and judged by an oracle written from the statement (after call k the context shows exactly handler k's response headers, nothing of an earlier call; the handler sees exactly the headers attached last, its own arg scheme, runs once; the caller gets the handler's outcome; a child context does not write into its parent). Every 8th case: a sequence of raw calls on the same connection/context/handler with changing arg scheme and application-error flag (each call and its response must show its own). All cases distinct by input.",
     "trusted_base": COMMON_TRUSTED + [
         "regenerated from source on every run and proved equal to the hand model (C18_codecs_generated; go2v method translator, Gen/GenCodecs.v + Gen/GenTypedBuf.v): arg2 NewKeyValIterator/Next (one step = kv_next), typed.ReadBuffer.ReadBytes for every Go int (= r_bytes_go, hence the slice guard incl. negative lengths), NewReadBuffer/NewWriteBuffer, http readVarintString/writeVarintString (over a hand re-model of encoding/binary's uvarint loops on the generated ReadByte/WriteBytes, Model/UvarintG.v). Trusted there: go2v/methods.go, Base/GoSem.v, the views of Proofs/GenTypedBufP.v",
         "modelled by hand (tied by correspondence): thrift WriteHeaders/readHeaders, the iteration loop around KeyValIterator.Next, http writeHeaders/readHeaders/WriteRequest/ReadRequest/ResponseWriter/ReadResponse byte layer, encoding/binary uvarint (re-modelled from its source)",
-        "library oracles, not modelled: encoding/json, thrift struct (de)serialisation, net/http request/URL construction (cases the library rejects are skipped); the thrift/JSON header path through client/server is covered by the hdrpath oracle only"
+        "library oracles, not modelled: encoding/json, thrift struct (de)serialisation, net/http request/URL construction (cases the library rejects are skipped)",
+        "the header path for contexts used for several calls: Model/HdrSlot.v (the container of context_header.go, headers through the modelled thrift codec, the clients' statements after the retry loop), proved to observe Spec/HdrPath.v on every operation sequence (C18_ctx_model_is_spec) and tied by correspondence (engine hdrseq). Regenerated from the source on every run and proved equal to the model (C18_ctx_generated; go2v statement targets with After, Gen/GenHdrPath.v): the statements of thrift client.Call / json Client.Call after RunWithRetry and of json wrapCall after makeCall, headerCtx.Headers / ResponseHeaders / SetResponseHeaders / Child and WrapWithHeaders. Trusted there: the hints printed in Gen/GenHdrPath.v (ctx.SetResponseHeaders(respHeaders) = `let slot := respHeaders`, the composite literal of WrapWithHeaders, c.headers() = has_container), JSON encode/decode of a header map is the identity (library oracle), the server side (thrift server.handle, json handler.Handle build a fresh context per call and write ctx.ResponseHeaders()) and the retry loop are modelled by hand and covered by correspondence only"
 ],
     "assumptions": [
         "WriteRequest ignores the write buffer's error for arg2 above 10000 bytes (sender reports success, receiver fails): outside the statement's 'within their size limits'; noted in DESIGN.md"
